@@ -210,7 +210,8 @@ func tryOpen(r *vf.Run, caseID, path, opt string, w map[string]any) (idx *updog.
 func runC15(r *vf.Run) {
 	r.Rule("one evaluation = one OpenIndex call in a history on a file derived from a valid index by damaging a subset of its parts (bucket x schema x counter x bitmaps) with one option set, run under recover; " +
 		"after every failed open and after every Close a fresh descriptor must obtain an exclusive non-blocking flock (no handle leaked); listed damage must yield an error; " +
-		"plus nonexistent path (must not be created), directory, zero-byte and non-bbolt files; distinct_nontrivial = distinct (damage, option set, history) triples")
+		"positional part: one undecodable bitmap value at the first, middle and last positions of indexes with 65 to 3000+ bitmaps must fail preloading (also while other handles on the file are open, which must not keep the file held after their Close); " +
+		"hostile gob schema (declared map count 2^32) opened in a child process; plus nonexistent path (must not be created), directory, zero-byte and non-bbolt files; distinct_nontrivial = distinct (damage, option set, history) triples")
 	r.Assume("damage is applied through bbolt, so the files stay structurally valid bbolt files (page-level corruption is bbolt's business)",
 		"bit-flipped/foreign gob schemas and damaged bitmaps may or may not decode: either outcome is accepted, a panic or a leaked lock is not")
 	rng := r.RNG("c15")
@@ -443,6 +444,8 @@ func runC15(r *vf.Run) {
 			os.Remove(path)
 		}
 	})
+	c15Positional(r, dir)
+	c15GobCount(r, dir)
 	// special paths
 	specials := []struct {
 		name  string
